@@ -41,7 +41,7 @@ def gen_cfg(rng, prop, tier):
     cfg["q_rate"] = rng.choice((0.4, 0.6, 0.8))
     cfg["a_rate"] = rng.choice((0.1, 0.2, 0.3))
     cfg["init_attrs"] = [
-        {k: rng.choice((0, 1, 2, "a")) for k in ATTRS if rng.random() < 0.5} for _ in cfg["classes"]
+        {k: rng.choice((0, 1, 2, "a", None)) for k in ATTRS if rng.random() < 0.5} for _ in cfg["classes"]
     ]
     return cfg
 
@@ -83,13 +83,13 @@ def gen_query(rng, world, snap, attrs, qid):
         if r < 0.4:
             q["f"] = ["idx", sorted(i for i in range(n) if rng.random() < 0.5)]
         elif r < 0.8:
-            q["f"] = ["attr", rng.choice(ATTRS + ("name",)), rng.choice((0, 1, 2, "a", "n1"))]
+            q["f"] = ["attr", rng.choice(ATTRS + ("name",)), rng.choice((0, 1, 2, "a", "n1", None))]
         else:
             q["f"] = None
         q["stop"] = sorted(i for i in range(n) if rng.random() < 0.2) if rng.random() < 0.4 else None
     else:
         q["name"] = rng.choice(ATTRS + ("name", "nope"))
-        q["value"] = rng.choice((0, 1, 2, "a", "n0", "n1", "n2"))
+        q["value"] = rng.choice((0, 1, 2, "a", "n0", "n1", "n2", None))
         q["dflt"] = rng.random() < 0.3 and q["name"] == "name"
     q["pos"] = rng.choice((0, 0, 1, 2, 3))
     if fn.startswith("findall"):
@@ -206,7 +206,7 @@ def run(cfg, ops=None, rng=None):
                     if k in attrs[i] and rng.random() < 0.3:
                         op = {"op": "delattr", "n": i, "k": k}
                     else:
-                        op = {"op": "setattr", "n": i, "k": k, "v": rng.choice((0, 1, 2, "a"))}
+                        op = {"op": "setattr", "n": i, "k": k, "v": rng.choice((0, 1, 2, "a", None))}
                 else:
                     op = gen_op(rng, model, cfg, step)
                 res.ops.append(op)
